@@ -327,6 +327,12 @@ func (f *Frame) callStatic(callee *ssa.Function, args []string, argVals []ssa.Va
 			expand = true
 		}
 	}
+	for _, x := range e.unit.NoContract {
+		if x == callee.Name() {
+			e.fullHavoc(st, "call to "+callee.Name()+" (contract not used in this unit)")
+			return callOut{reach, f.symbolicResults(callee.Signature, st, reach, callee.Name()), st}
+		}
+	}
 	if c := e.P.contractFor(callee); c != nil && !(c.Inline && len(callee.Blocks) > 0) && !expand {
 		var names []string
 		for _, p := range callee.Params {
